@@ -1,15 +1,62 @@
 """C44 Triggers see every row change of their table (db19/triggers.go, tran.go)"""
+# Steps:
+#  1. Fkey.tla (exhaustive) + harness/cmd/dbtran profiles trigpairs / trig validated by TraceDb.tla:
+#     trigger calls for every insert / update / delete incl. cascades, throwing triggers, nested
+#     disable / enable; the triggers there are Go builtins defined directly as Trigger_<table>.
+#  2. run_triglib: triggers DEFINED IN LIBRARY RECORDS, found through core.Global.FindName, its
+#     "no definition" cache (noDef / cleared) and the library loader. TrigLib.tla = the caching scheme
+#     as coded, checked exhaustively against the documented promises of TrigLibRules.tla (most
+#     recently used library wins; a cached definition may stay until Use / Unuse / Unload(name) /
+#     Unload()); harness/cmd/triglib = real heap database, local dbms, library tables, real
+#     Use / Unuse / Unload builtins, row changes from Suneido code; TraceTrigLib.tla replays the log
+#     through the same rules and rejects any row change whose trigger calls they do not allow.
+#
+# Mutation testing of step 2 (scratch worktree, VERIF_REPO; every mutant compiles, `go test -short`
+# of the touched package green; each rejected by TraceTrigLib within the first 1000 of ~9000 events,
+# driver seeds 1000 and 2000, 150 scenarios):
+#   seeded/C44-nodef-cache-survives-unload-r2  core/globals.go SetNoDef leaves g.cleared alone  VIOLATION (seeds 1-4)
+#   M1 core/globals.go unload(name): noDef entry not deleted                                   VIOLATION
+#   M2 core/globals.go UnloadAll: noDef not cleared                                            VIOLATION
+#   M3 core/globals.go SetName leaves g.cleared alone (next UnloadAll returns early)           VIOLATION
+#   M4 builtin/library.go Use: no UnloadAll after a successful Use                             VIOLATION
+#   M5 dbms/dbmslocal.go LibGet: libraries visited in reverse order (first used wins)          VIOLATION
+#   M6 builtin/library.go Unuse: no UnloadAll                                                  VIOLATION
+#   M7 db19/triggers.go enabled: disabled[table] <= 1                                          VIOLATION
+# (step 1 does not see the seeded change and M1-M6: its triggers never go through the library lookup.)
+# The TLA+ deviations Dev = setnodefkeepscleared / setnamekeepscleared / unloadkeepsnodef /
+# unloadallkeepsnodef / usenounload / firstlibwins are the model counterparts (expect_violation runs).
 import dbcommon
 from vlib import Infra
 
 META = {
  "engine": "tla-fkey",
- "text": "The trigger rules are part of TraceDb.tla over DbModel.tla change sets (exhaustively model-checked for the cascade semantics by Fkey.tla): every insert / update to a different value / delete, including rows changed by cascades, must produce exactly one call with the old and new row inside the changing operation, none while the table's trigger is disabled (nested disable/enable counts), none for no-op updates; a transaction whose trigger threw must never commit. Validated on op-level interleavings (single goroutine, disable/enable exercised) and on free-running concurrent clients with real Trigger_<table> globals",
- "note": "trusts TLC, hook placement, Trigger_<table> defined through core.Global.TestDef as a Go builtin that logs; exhaustive TLC part covers the change-set semantics (Fkey.tla), the trigger clauses themselves are checked by trace validation only",
+ "text": "The trigger rules are part of TraceDb.tla over DbModel.tla change sets (exhaustively model-checked for the cascade semantics by Fkey.tla): every insert / update to a different value / delete, including rows changed by cascades, must produce exactly one call with the old and new row inside the changing operation, none while the table's trigger is disabled (nested disable/enable counts), none for no-op updates; a transaction whose trigger threw must never commit. Validated on op-level interleavings (single goroutine, disable/enable exercised) and on free-running concurrent clients with real Trigger_<table> globals. Library-defined triggers: TLC exhausts TrigLib.tla (global name table cache values / noDef / cleared, Use / Unuse / Unload, library record edits) against the documented lookup promises, and real executions with triggers stored in library records (heap database, local dbms, real Use / Unuse / Unload builtins) are validated by TraceTrigLib.tla: every row change calls exactly the definition of the most recently used library that defines Trigger_<table> (a definition cached before a record edit may stay until the next Use / Unuse / Unload), exactly once, inside the changing transaction, none when disabled or undefined",
+ "note": "trusts TLC, hook placement, Trigger_<table> defined through core.Global.TestDef as a Go builtin that logs; exhaustive TLC part covers the change-set semantics (Fkey.tla), the trigger clauses themselves are checked by trace validation only; library step: libload of gsuneido.go (package main) is copied into the driver without overrides / tags, one session",
  "technique": "TLA+ model checking (TLC) of the change semantics + trace validation of trigger calls in real executions",
 }
 
+TRIGLIB_EVENTS = {"Reset", "AddRec", "UpdRec", "DelRec", "Unload", "UnloadAll", "Use", "Unuse",
+                  "LoadOther", "Disable", "Enable", "Row"}
+
+
+def replay(ctx):
+    """re-validate a kept replay file (a triglib trace or a dbtran trace)"""
+    import json
+    kinds = set()
+    for line in open(ctx.replay):
+        if line.strip():
+            kinds.add(json.loads(line).get("e"))
+    if kinds <= TRIGLIB_EVENTS:
+        res = ctx.tlc_trace("TraceTrigLib.tla", "TraceTrigLib.cfg", ctx.replay, timeout=900)
+    else:
+        res = ctx.tlc_trace("TraceDb.tla", "TraceDb.cfg", ctx.replay, timeout=3000)
+    if not res["accepted"]:
+        ctx.report_rejection(ctx.replay, res)
+
+
 def run(ctx):
+    if ctx.replay:
+        return replay(ctx)
     ctx.tlc_mc("Fkey.tla", "Fkey_quick.cfg", timeout=600)
     if ctx.thorough():
         ctx.tlc_mc("Fkey.tla", "Fkey_thorough.cfg", timeout=2400)
@@ -41,7 +88,7 @@ def run_triglib(ctx):
     drv = ctx.go_build("triglib")
     for k in range(4 if ctx.thorough() else 1):
         trace = "%s/triglib-%d.ndjson" % (ctx.work, k)
-        nscen = 600 if ctx.thorough() else 250
+        nscen = 600 if ctx.thorough() else 150
         rc, out, summ = ctx.driver(drv, [trace, nscen], timeout=900,
                                    env={"VERIF_SEED": str(ctx.seed * 1000 + k)}, name="triglib")
         if rc != 0:
